@@ -419,6 +419,63 @@ func runC08(r *Run) {
 				fmt.Sprintf("transport: %s; %d packets (%d bytes: handshake, tunnel, authorization, channel, 45 DATA of 4000 bytes, close) delivered as messages/chunks cut at %v\nresponses: %s\nhost received %d bytes, reference (one packet per message) %d bytes\nreference responses: %s\n", bc.kind, len(bulk), len(bulkStream), bc.cuts, pktsCanon(res.pkts), len(res.hostBytes), len(bulkRef.hostBytes), pktsCanon(bulkRef.pkts)))
 		}
 	}
+	// complete packets must take effect without waiting for more bytes from the client: DATA packets
+	// delivered in one chunk / message of exactly 4096·k bytes (the transports' read size), then silence
+	for _, kind := range []string{"legacy", "ws"} {
+		for _, total := range []int{4096, 8192, 12288} {
+			host := listeners[0]
+			host.poll()
+			host.reset()
+			var cl gwClient
+			id := "{" + randHex(8) + "}"
+			if kind == "ws" {
+				w, err := dialWS(gws.addr, id, "")
+				if err != nil {
+					r.Inconclusive()
+					continue
+				}
+				cl = w
+				go func() {
+					for {
+						if _, err := w.recv(10 * time.Second); err != nil {
+							return
+						}
+					}
+				}()
+			} else {
+				l, err := dialLegacy(gws.addr, id, "")
+				if err != nil {
+					r.Inconclusive()
+					continue
+				}
+				cl = l
+				go io.Copy(io.Discard, l.outBr)
+			}
+			for _, p := range std[:4] {
+				cl.send(p)
+			}
+			if !waitFor(4*time.Second, func() bool { host.poll(); return len(host.conns) > 0 }) {
+				cl.close()
+				r.Inconclusive()
+				continue
+			}
+			hc := host.conns[0]
+			// two DATA packets filling the chunk exactly
+			p1 := mkPacket(tData, bodyData(bytes.Repeat([]byte{0x5a}, 3000-10)))
+			p2 := mkPacket(tData, bodyData(bytes.Repeat([]byte{0xa5}, total-3000-10)))
+			cl.send(append(append([]byte{}, p1...), p2...))
+			want := total - 20
+			ok := waitFor(3*time.Second, func() bool { return len(hc.received()) >= want })
+			got := len(hc.received())
+			cl.close()
+			r.Count(fmt.Sprintf("api-exact-chunk:%s:%d", kind, total))
+			r.Dist("api-exact-chunk:" + kind)
+			if !ok {
+				r.Violation("c08-api-effects", "over the real "+kind+" transport the gateway's responses or the bytes relayed to the host depend on the segmentation of the client's byte stream",
+					fmt.Sprintf("transport: %s; after the channel is open two complete DATA packets (%d and %d bytes) arrive in one chunk/message of exactly %d bytes and the client then stays silent: the host has %d of %d payload bytes after 3 s (delivered one packet per chunk they arrive at once)\n", kind, len(p1), len(p2), total, got, want))
+			}
+		}
+	}
 	if drift > 0 && !r.HasViolation() {
 		r.Unproven(fmt.Sprintf("correspondence Model.Frame.readStream = Tunnel.Read loop broke on %d cases although the implementation is segmentation independent on everything explored; theorems of Props/C08 no longer transfer", drift), firstDrift)
 	}
